@@ -49,9 +49,9 @@ Definition q_dot_tri c (s : qsolver) (y : mat) : mat := qmatmul K c (Lower (q_fa
 (* condition, QSM branch (X_test is None and the kernel is quasiseparable): M + noise - gram(inv(L) @ M) *)
 Definition quasisep_condition_qsm (s : qsolver) (Mk : qsm F) (Nstar : noise F) : option (qsm F) :=
   let Li := lower_inv K (q_factor_d s) (q_factor_l s) in
-  match qsm_mul K (Lower Li.1 Li.2) Mk with
+  match qsm_mul_u K (Lower Li.1 Li.2) Mk with
   | Some P =>
-    match qgram K P, nto_qsm K Nstar with
+    match qgram_u K P, nto_qsm K Nstar with
     | Some delta, Some Nq =>
       match elementwise_add K Mk Nq with
       | Some M2 => qsub K M2 delta
